@@ -4,7 +4,7 @@ from . import _batcher
 ID = 'C11'
 MODULE = _batcher.MODULE
 LEAN_SUBDIRS = _batcher.LEAN_SUBDIRS
-THEOREMS = ['AiutiVerif.Batcher.C11_no_duplicate_key', 'AiutiVerif.Batcher.C11_no_duplicate_key_prefix',
+THEOREMS = ['AiutiVerif.Batcher.C11_sharer_adds_no_work','AiutiVerif.Batcher.C11_no_duplicate_key', 'AiutiVerif.Batcher.C11_no_duplicate_key_prefix',
             'AiutiVerif.Batcher.C11_pending_work_distinct', 'AiutiVerif.Batcher.C11_shared_adds_no_work',
             'AiutiVerif.Batcher.C11_fresh_adds_work', 'AiutiVerif.Batcher.runProgram_Rq']
 ASSUMPTIONS = list(_batcher.ASSUMPTIONS_COMMON)
